@@ -1221,7 +1221,74 @@ impl VtCtx {
             w.tick();
             (w.name(s), w.props(s, n))
         };
-        self.add_event_named(handle, name, props, re);
+        if s.l % 4 == 3 {
+            self.add_event_deprecated(handle, name, props, re);
+        } else {
+            self.add_event_named(handle, name, props, re);
+        }
+    }
+
+    /// the deprecated (but public) `Event::add_to_parent` / `Event::add_to_local_parent`
+    #[allow(deprecated)]
+    fn add_event_deprecated(&mut self, handle: Option<u16>, name: String, props: Vec<(String, String)>, re: &[Mini]) {
+        use std::borrow::Cow;
+        let cow = |p: &[(String, String)]| -> Vec<(Cow<'static, str>, Cow<'static, str>)> { p.iter().map(|(k, v)| (Cow::Owned(k.clone()), Cow::Owned(v.clone()))).collect() };
+        self.w().h.label("deprecated_event_api");
+        match handle {
+            Some(hs) => {
+                let Some(idx) = Self::pick_span(&mut self.w(), hs) else { return };
+                {
+                    let mut w = self.w();
+                    let d = Self::has_dup_units(&w.h.spans[idx].items);
+                    if self.excluded_dup(&mut w, d) {
+                        return;
+                    }
+                }
+                let Some(span) = self.w().spans[idx].take() else { return };
+                let t0 = self.w().tick();
+                let b0 = self.now();
+                let (n2, p2) = (name.clone(), cow(&props));
+                self.guarded("Event::add_to_parent", |me| {
+                    Event::add_to_parent(n2, &span, || {
+                        me.run_re(re);
+                        p2
+                    })
+                });
+                let b1 = self.now();
+                let mut w = self.w();
+                let t1 = w.tick();
+                w.spans[idx] = Slot::Live(span);
+                if !w.h.spans[idx].noop {
+                    let vt = self.id;
+                    w.h.atts.push(MAtt { kind: AKind::Event { name, props }, target: ARef::Span(idx), route: Route::Handle, vt, t: (t0, t1), scope: None, b0, b1 });
+                }
+            }
+            None => {
+                {
+                    let mut w = self.w();
+                    let d = Self::top_scope_dup(&w, self.id);
+                    if self.excluded_dup(&mut w, d) {
+                        return;
+                    }
+                }
+                let t0 = self.w().tick();
+                let b0 = self.now();
+                let (n2, p2) = (name.clone(), cow(&props));
+                self.guarded("Event::add_to_local_parent", |me| {
+                    Event::add_to_local_parent(n2, || {
+                        me.run_re(re);
+                        p2
+                    })
+                });
+                let b1 = self.now();
+                let mut w = self.w();
+                let t1 = w.tick();
+                let vt = self.id;
+                if let Some((target, sc)) = Self::local_attach_target(&mut w, vt) {
+                    w.h.atts.push(MAtt { kind: AKind::Event { name, props }, target, route: Route::Local, vt, t: (t0, t1), scope: Some(sc), b0, b1 });
+                }
+            }
+        }
     }
 
     pub fn add_event_named(&mut self, handle: Option<u16>, name: String, props: Vec<(String, String)>, re: &[Mini]) {
